@@ -13,9 +13,9 @@ pkgdir=$(dirname "$demo")
 # state: change applied?
 if git diff --quiet; then git apply patch.diff || { echo "patch does not apply"; exit 2; }; fi
 echo "== changed: $(git diff --stat | tail -1)"
-mv "$demo" /tmp/.demo.$$ 
+mkdir -p /tmp/.demo.$$; mv "$demo" /tmp/.demo.$$/demo; for f in $(ls "$pkgdir"/DEMO_*_test.go 2>/dev/null); do mv "$f" /tmp/.demo.$$/; done
 suite=$(go test -vet=off -count=1 ./... 2>&1 | grep -v "no test files"); 
-mv /tmp/.demo.$$ "$demo"
+mv /tmp/.demo.$$/demo "$demo"; rm -rf /tmp/.demo.$$
 if echo "$suite" | grep -qE "^(FAIL|---)"; then echo "EXISTING SUITE FAILS WITH THE CHANGE"; echo "$suite" | tail -5; suite_ok=no; else echo "== existing suite passes with the change"; suite_ok=yes; fi
 with=$(go test -vet=off -count=1 -run 'TestSeedDemo' ./$pkgdir 2>&1 | tail -3)
 if echo "$with" | grep -q "^ok"; then echo "DEMO PASSES WITH THE CHANGE (bad)"; demo_with=pass; else echo "== demo fails with the change"; demo_with=fail; fi
